@@ -414,7 +414,7 @@ func vfC07Judge(rt *rapid.T, vf *vfCollector, rig *vfxRig, cfg, prev *vfxCfg, k 
 		"resp-compressed": compressed, "resp-compressed-lying": compressed && k.Encoding == "lying", "resp-compressed-over": compressed && over,
 		"resp-chunked-body-cut": k.Encoding == "cut", "resp-chunked-body-cut:only-terminating-chunk-missing": k.Encoding == "cut" && k.CutAt < 0,
 		"resp-chunked-body-cut-buffered-below-limit": k.Encoding == "cut" && eff >= 0 && !over, "resp-chunked-body-cut-stream": k.Encoding == "cut" && eff < 0,
-		"mirrorPool": cfg.Mirror, "mirrored-request": k.Mirrored, "mirrored-request:copy-seen-by-mirror-server": mirrorCopies > 0,
+		"mirrorPool": cfg.Mirror, "mirrored-request": k.Mirrored, "mirrored-request:copy-seen-by-mirror-server": mirrorCopies > 0, "mirrored-request:copy-not-seen-within-join-wait": k.Mirrored && len(seen) > 0 && mirrorCopies == 0,
 		"req-mirrored-with-body": k.Dir == "req" && k.Mirrored && k.Size > 0, "req-mirrored-stream-with-body": k.Dir == "req" && k.Mirrored && eff < 0 && k.Size > 0 && k.Encoding != "lying",
 		"server-spec-reloaded": prev != nil, "req-after-server-spec-reload": k.Dir == "req" && prev != nil,
 		"req-limit-from-server-level-changed-by-reload": reloadedOuter, "req-limit-from-server-level-changed-by-reload(previous-non-zero)": reloadedOuter && prev.ServerClientMax != 0,
